@@ -82,6 +82,19 @@ Create ==
              C03_helpers_report_file_axes    |-> (E.how = "file") => E.helpers_ok,
              C12_unpickled_equals_original   |-> (FromSave /\ E.how = "pickle") => E.exact_ok], E.fid, E.after)
 
+\* get_noise_stats / get_total_stats / get_params / get_metadata: read-only; what they report is the state the frame's own
+\* recorded calls left (estimate, bookkeeping rate), and they change nothing
+Info ==
+    /\ l <= Len(Evs) /\ bad = {} /\ E.e = "Info"
+    /\ UNCHANGED <<file, mrate>>
+    /\ Step([cont_estimate                      |-> Cont(E.fid, E.before),
+             C12_data_changed_only_by_own_calls |-> ContD(E.fid, E.dig0),
+             C11_query_leaves_estimate          |-> E.after = E.before /\ E.dig1 = E.dig0 /\ E.axes_same,
+             C11_noise_stats_report_estimate    |-> (E.src = "get_noise_stats" /\ E.st = "ok") => E.reported = E.before,
+             C05_params_report_shape            |-> E.value_ok,
+             C17_metadata_is_own                |-> (Traces[tid].h.strict /\ E.src = "get_metadata" /\ E.fid \in known /\ mrate[E.fid] # "?")
+                                                       => E.rate = mrate[E.fid]], E.fid, E.after)
+
 \* add_metadata / update_metadata: the only recorded calls that change a frame's bookkeeping dictionary
 Meta ==
     /\ l <= Len(Evs) /\ bad = {} /\ E.e = "Meta"
@@ -167,7 +180,7 @@ Derive ==
                   ELSE /\ known' = known \cup {E.child} /\ est' = [est EXCEPT ![E.child] = E.child_est]
                        /\ dig' = [dig EXCEPT ![E.child] = E.child_dig]
 
-Next == Create \/ Noise \/ ZeroData \/ Signal \/ Snr \/ Derive \/ Save \/ Copy \/ Meta
+Next == Create \/ Noise \/ ZeroData \/ Signal \/ Snr \/ Derive \/ Save \/ Copy \/ Meta \/ Info
 Spec == Init /\ [][Next]_vars
 
 Progress == TLCSet(tid, IF bad # {} THEN <<l, bad>> ELSE IF TLCGet(tid)[1] < l THEN <<l, {}>> ELSE TLCGet(tid))
